@@ -178,8 +178,12 @@ PA == "orbiter.pre_actions"
 A0 == "orbiter.pre_actions.0"
 FI == "orbiter.pre_actions.0.attributes.fees_info"
 FW == "orbiter.forwarding"
+\* unknown fields are rejected wherever they appear (C15)
+UnknownPaths == {"x", "orbiter.x", FW \o ".x", FW \o ".attributes.x", A0 \o ".x", A0 \o ".attributes.x", FI \o ".0.x",
+                 FI \o ".0.basis_points.x"}
 MustRefuseMut(path, m) ==
-  CASE path \in {"root", "orbiter", FW, FW \o ".protocol_id", FW \o ".attributes", A0 \o ".id", A0 \o ".attributes",
+  CASE path \in UnknownPaths -> m \notin DupMuts \cup {"absent"}
+    [] path \in {"root", "orbiter", FW, FW \o ".protocol_id", FW \o ".attributes", A0 \o ".id", A0 \o ".attributes",
                  FI \o ".0.recipient", FI \o ".0.basis_points", FI \o ".1.amount"} -> m \notin DupMuts
     [] path \in {FW \o ".attributes.@type", A0 \o ".attributes.@type"} -> m \notin DupMuts
     [] path \in {PA, FI} -> m \in WrongTypeForList
@@ -576,6 +580,45 @@ GenDoc(s, in) ==
                                !.maxPT = (IF g.params < 0 THEN BIG ELSE g.params), !.hasParams = TRUE,
                                !.amt = LastWins(g.amts, AmtKeyOf), !.cnt = LastWins(g.cnts, CntKeyOf)], NoReq)
 
+-----------------------------------------------------------------------------
+(* Acknowledgement and timeout of packets Noble sent: passed through to ICS-20 (refund) *)
+
+Refund(s, in) ==
+  LET to == RcvAcct(in.who) IN
+  IF in.dn = "RAWDATA" \/ AmtKind(in) = "bad" \/ ~RcvDecodes(in.who) THEN Res(FALSE, "refund-invalid", s, NoReq)
+  ELSE IF AmtKind(in) # "num" THEN Res(FALSE, "out-of-model", s, NoReq)
+  ELSE IF in.dn = "VOUCHER" THEN      \* a voucher Noble minted: mint it back
+     Res(TRUE, "", [s EXCEPT !.bal[to]["ibc"] = @ + in.amt, !.supply["ibc"] = @ + in.amt], NoReq)
+  ELSE IF in.base \notin NativeDenoms \/ s.bal[Escrow(in.chan)][in.base] < in.amt \/ in.amt < 1
+     THEN Res(FALSE, "refund-insufficient-escrow", s, NoReq)
+  ELSE IF Restricted(s, Escrow(in.chan), to, in.base) THEN Res(FALSE, "refund-restricted", s, NoReq)
+  ELSE Res(TRUE, "", Move(s, Escrow(in.chan), to, in.base, in.amt), NoReq)
+
+AckPkt(s, in) ==
+  CASE in.op = "ackOk" -> IF in.dn = "RAWDATA" THEN Res(FALSE, "ack-invalid", s, NoReq) ELSE Res(TRUE, "", s, NoReq)
+    [] in.op = "ackGarbage" -> Res(FALSE, "ack-invalid", s, NoReq)
+    [] OTHER -> Refund(s, in)
+
+-----------------------------------------------------------------------------
+(* Statistics queries (C13): a model walk over the matching entries *)
+
+CntAsEntries(s) == {[sp |-> e.sp, sc |-> e.sc, dp |-> e.dp, dc |-> e.dc, denom |-> "", in |-> e.n, out |-> 0] : e \in s.cnt}
+QStats(s, q) == IF q.kind = "amounts" THEN s.amt ELSE CntAsEntries(s)
+Matching(s, q) == {e \in QStats(s, q) : (q.by = "src" => e.sp = q.pid) /\ (q.by = "dst" => e.dp = q.pid)}
+DirectHit(s, q) == {e \in QStats(s, q) : <<e.sp, e.sc, e.dp, e.dc>> = <<q.sp, q.sc, q.dp, q.dc>> /\ (q.kind = "amounts" => e.denom = q.denom)
+                                        /\ (e.in > 0 \/ e.out > 0)}
+EffLimit(q) == IF q.limit = 0 THEN 100 ELSE q.limit
+RECURSIVE Chunk(_, _)
+Chunk(seq, n) == IF Len(seq) <= n THEN <<seq>> ELSE <<SubSeq(seq, 1, n)>> \o Chunk(SubSeq(seq, n + 1, Len(seq)), n)
+ModelPages(s, q) ==
+  IF q.by = "direct" THEN
+     (IF DirectHit(s, q) = {} THEN <<[items |-> <<>>, hasNext |-> FALSE, total |-> 0, err |-> TRUE]>>
+      ELSE <<[items |-> SetToSeq(DirectHit(s, q)), hasNext |-> FALSE, total |-> 0, err |-> FALSE]>>)
+  ELSE IF q.pid \notin ProtoNames THEN <<[items |-> <<>>, hasNext |-> FALSE, total |-> 0, err |-> TRUE]>>
+  ELSE LET all == SetToSeq(Matching(s, q))  ch == Chunk(all, EffLimit(q)) IN
+       [i \in DOMAIN ch |-> [items |-> ch[i], hasNext |-> i < Len(ch),
+                             total |-> IF q.countTotal /\ (i = 1 \/ q.walk = "offset") THEN Len(all) ELSE 0, err |-> FALSE]]
+
 \* export -> validate -> initialise a fresh module -> export: the identity on the module's state
 Reimport(s, in) == Res(TRUE, "", s, NoReq)
 
@@ -586,6 +629,8 @@ Apply(s, in) ==
     [] in.t = "env"      -> EnvStep(s, in)
     [] in.t = "reimport" -> Reimport(s, in)
     [] in.t = "gendoc"   -> GenDoc(s, in)
+    [] in.t = "ackpkt"   -> AckPkt(s, in)
+    [] in.t = "timeout"  -> Refund(s, in)
     [] OTHER             -> Res(TRUE, "", s, NoReq)       \* queries are read-only
 
 -----------------------------------------------------------------------------
@@ -661,6 +706,15 @@ ModelStep(pre, in) ==
        hasQ |-> in.t = "admin",
        q |-> QueryView(r.st),
        x |-> [exportOk |-> TRUE, validateOk |-> TRUE, initOk |-> TRUE, sameExport |-> TRUE, fullOk |-> TRUE],
+       hasDiff |-> isRecv \/ in.t \in {"ackpkt", "timeout"},
+       diff |-> [ackEq |-> TRUE, eventsEq |-> TRUE, stateEq |-> TRUE, appVersionEq |-> TRUE],
+       pages |-> IF in.t = "query" THEN ModelPages(pre, in.q) ELSE <<>>,
+       hasDig |-> FALSE, dig |-> "", peers |-> <<>>,
+       hasParse |-> isRecv /\ in.mk = "PAYLOAD",
+       parse |-> [ok |-> in.mk = "PAYLOAD" /\ ParseOK(in) /\ PayloadValid(in), pure |-> TRUE],
+       rt |-> [built |-> FALSE, parseOk |-> FALSE, equal |-> FALSE, remarshalEqual |-> FALSE, sameMemo |-> FALSE],
+       hasCredit |-> isRecv /\ r.ok /\ ForOrbiter(in),
+       credit |-> IF isRecv /\ r.ok /\ ForOrbiter(in) THEN <<[d |-> in.base, a |-> in.amt]>> ELSE <<>>,
        idres |-> IF in.t = "ident" THEN IdentModel(pre, in) ELSE <<>>,
        gen |-> [validateOk |-> in.t = "gendoc" /\ GenValid(in.g), initOk |-> in.t = "gendoc" /\ GenValid(in.g)] ]
 
